@@ -100,3 +100,156 @@ func H18() {
 		}
 	}
 }
+
+// ---- H18rev: a newer revision that arrives after a processing run. No typedef is involved (the
+// memoised-type trace of history is a known finding of H18): the revisions differ in a grouping and
+// in their data nodes; an importer without revision-date uses the grouping and augments the module.
+var h18revText = []string{
+	`module lib { namespace "urn:lib"; prefix lib; revision 2019-01-01; grouping gp { leaf old { type string; } } container c { leaf c19 { type string; } } }`,
+	`module lib { namespace "urn:lib"; prefix lib; revision 2020-06-15; grouping gp { leaf new { type int8; } } container c { leaf c20 { type string; } } }`,
+	`module user { namespace "urn:user"; prefix user; import lib { prefix l; } container uc { uses l:gp; } augment /l:c { leaf ua { type string; } } }`,
+	`module pin { namespace "urn:pin"; prefix pin; import lib { prefix l; revision-date 2019-01-01; } container pc { uses l:gp; } }`,
+}
+
+func H18rev() {
+	n := param("n")
+	hNoFiles()
+	ms := NewModules()
+	var good []int
+	for step := 0; step <= n; step++ {
+		op := len(h18revText)
+		if step < n {
+			op = symChoice(len(h18revText) + 1)
+		}
+		if op < len(h18revText) {
+			err := ms.Parse(h18revText[op], "r"+string([]byte{'0' + byte(op)})+".yang")
+			already := false
+			for _, g := range good {
+				already = already || g == op
+			}
+			if already {
+				check(err != nil, "the same module and revision again is rejected")
+			} else {
+				check(err == nil, "a good text loads")
+				good = append(good, op)
+			}
+			continue
+		}
+		errs := ms.Process()
+		ref := NewModules()
+		for _, g := range good {
+			check(ref.Parse(h18revText[g], "r"+string([]byte{'0' + byte(g)})+".yang") == nil, "reference load")
+		}
+		rerrs := ref.Process()
+		reach("compared")
+		// C13: an import without revision-date denotes the latest loaded revision, one with a
+		// revision-date exactly that revision - whenever the revisions arrived
+		if u := ms.Modules["user"]; u != nil && len(errs) == 0 {
+			check(u.Import[0].Module != nil && u.Import[0].Module == ms.Modules["lib"], "an import without revision-date denotes the loaded module with the latest revision")
+			if m20 := ms.Modules["lib@2020-06-15"]; m20 != nil {
+				check(ms.Modules["lib"] == m20, "the bare name denotes the latest revision")
+			}
+		}
+		if p := ms.Modules["pin"]; p != nil && len(errs) == 0 && ms.Modules["lib@2019-01-01"] != nil {
+			check(p.Import[0].Module != nil && p.Import[0].Module == ms.Modules["lib@2019-01-01"], "an import with a revision-date denotes exactly that revision")
+		}
+		check(hErrs(errs) == hErrs(rerrs), "after any history the errors equal those of the batch run of the good texts on a fresh set (revisions arriving late)")
+		if len(errs) == 0 && len(rerrs) == 0 {
+			check(hDump(ms) == hDump(ref), "after any history the trees equal those of the batch run of the good texts on a fresh set (revisions arriving late)")
+		}
+	}
+}
+
+// ---- H18disk: modules that a processing run fetches itself from the search path, and files
+// that fail to load and are offered again after being repaired. The file system is a harness
+// model behind the package's own seams (readFile, scanDir).
+func H18disk() {
+	n := param("n")
+	base := `module base { namespace "urn:base"; prefix base; container c { leaf l { type string; default "d"; } choice ch { leaf s { type string; } } } }`
+	user := `module user { namespace "urn:user"; prefix user; import dep { prefix d; } import base { prefix b; } leaf ul { type string; } }`
+	deps := []string{
+		`module dep { namespace "urn:dep"; prefix dep; import base { prefix b; } augment /b:c { leaf a { type string; } choice k { leaf short { type int8; } } } augment /b:c/b:ch { leaf s2 { type string; } } }`,
+		`module dep { namespace "urn:dep"; prefix dep; import base { prefix b; } leaf bad { type string; config maybe; } }`,
+		`module dep { namespace "urn:dep"; prefix dep; import base { prefix b; } deviation /b:c/b:l { deviate replace { default "e"; } } }`,
+	}
+	xbad := `module x { namespace "urn:x"; prefix x; leaf xl { type string; }`
+	xbad2 := `module x { namespace "urn:x"; prefix x; leaf xl { type string; } bogus-statement q; }`
+	xgood := `module x { namespace "urn:x"; prefix x; leaf xl { type string; } }`
+	disk := map[string]string{"dep.yang": deps[symChoice(len(deps))], "x.yang": xbad}
+	if symBool() {
+		disk["x.yang"] = xbad2
+	}
+	readFile = func(name string) ([]byte, error) {
+		if t, ok := disk[name]; ok {
+			return []byte(t), nil
+		}
+		return nil, errNoFile
+	}
+	scanDir = func(string, string, bool) string { return "" }
+	ms := NewModules()
+	type load struct {
+		name, text string
+	}
+	var good []load
+	loaded := map[string]bool{}
+	for step := 0; step <= n; step++ {
+		op := 4
+		if step < n {
+			op = symChoice(5)
+		}
+		switch op {
+		case 0, 1:
+			t, nm := base, "base"
+			if op == 1 {
+				t, nm = user, "user"
+			}
+			err := ms.Parse(t, nm+".yang")
+			if loaded[nm] {
+				check(err != nil, "the same module again is rejected")
+			} else {
+				check(err == nil, "a good text loads")
+				good = append(good, load{nm + ".yang", t})
+				loaded[nm] = true
+			}
+		case 2: // read x from the disk, whatever it holds now
+			err := ms.Read("x")
+			isGood := disk["x.yang"] == xgood
+			if isGood && !loaded["x"] {
+				check(err == nil, "a repaired file loads although an earlier offer of it failed")
+				good = append(good, load{"x.yang", xgood})
+				loaded["x"] = true
+			} else {
+				check(err != nil, "a bad file (or the same module again) is rejected")
+			}
+		case 3: // repair x on the disk
+			disk["x.yang"] = xgood
+		case 4:
+			errs := ms.Process()
+			d1 := ""
+			if len(errs) == 0 {
+				d1 = hDump(ms)
+			}
+			// processing twice gives the same as processing once - also for modules that the first
+			// run fetched itself
+			errs2 := ms.Process()
+			check(hErrs(errs) == hErrs(errs2), "processing a set twice gives the same errors as processing it once")
+			if len(errs) == 0 && len(errs2) == 0 {
+				check(hDump(ms) == d1, "processing a set twice gives the same trees as processing it once")
+			}
+			// batch run on a fresh set: the accepted texts, and explicitly the module the run fetched
+			ref := NewModules()
+			for _, g := range good {
+				check(ref.Parse(g.text, g.name) == nil, "reference load")
+			}
+			if ms.Modules["dep"] != nil {
+				check(ref.Read("dep") == nil, "reference reads the fetched module")
+			}
+			rerrs := ref.Process()
+			reach("compared")
+			check(hErrs(errs2) == hErrs(rerrs), "after any history the errors equal those of the batch run on a fresh set (modules fetched during processing, files repaired after a failed load)")
+			if len(errs2) == 0 && len(rerrs) == 0 {
+				check(hDump(ms) == hDump(ref), "after any history the trees equal those of the batch run on a fresh set (modules fetched during processing, files repaired after a failed load)")
+			}
+		}
+	}
+}
